@@ -78,9 +78,9 @@ func HarnessChannelWiring() {
 	case 1:
 		out.Target = "::readout"
 	case 2:
-		out.Target = "tcp://elsewhere:1234"
+		out.Target = "tcp://Elsewhere-FLP042:1234" // (mixed case: passed through as written)
 	case 3:
-		out.Target = "ipc:///tmp/elsewhere"
+		out.Target = "ipc:///tmp/o2-Readout-STFB"
 	case 4:
 		out.Target = "root.nobody:data"
 	}
